@@ -101,7 +101,7 @@ def run(ctx):
     t3 = time.time()
     viol, drift = gc.validate(ctx, traces, "validate %d recorded traces against GridLazy" % len(traces))
     ctx.note("phase_seconds", {"model": round(t1 - t0, 1), "generate": round(t2 - t1, 1), "replay": round(t3 - t2, 1), "validate": round(time.time() - t3, 1)})
-    report(ctx, traces, viol, drift)
+    gc.report(ctx, traces, viol, drift)
     ctx.exhaustive = True
     ctx.rule = (
         "TLC proves the invariants of GridLazy under the intended mechanism (exhaustive per action family) and that the "
@@ -119,54 +119,5 @@ def run(ctx):
     ]
 
 
-def report(ctx, traces, viol, drift):
-    by_tid = {t["tid"]: t for t in traces}
-    for t in traces:
-        ctx.count(1, (gc.compact(t["hist"]), tuple(sorted(t["sources"].items()))))
-    seen = set()
-    for tid, items in sorted(viol.items()):
-        t = by_tid[tid]
-        for line, clause in sorted(items):
-            ev = t["events"][line - 1]
-            prev = [e["act"] for e in t["events"][: line - 1]]
-            key = "%s|%s|%s" % (clause, gc.compact(t["hist"][:line]), "/".join(t["sources"][k] for k in sorted(t["sources"])))
-            if key in seen:
-                continue
-            seen.add(key)
-            sig = {
-                "clause": clause,
-                "act": ev["act"],
-                "after": prev[-1] if prev else "",
-                "same_grid": bool(prev) and t["events"][line - 2]["h"] == ev["h"],
-            }
-            ctx.violation(
-                key,
-                clause,
-                detail={k: ev.get(k) for k in ("args", "where", "err", "fresh_err", "obs", "bad", "bad_detail", "tmpl", "earlier") if ev.get(k)},
-                sig=sig,
-                replay={"history": t["hist"][:line], "sources": t["sources"]},
-            )
-    n_drift = sum(len(v) for v in drift.values())
-    if n_drift:
-        ex = sorted(drift.items())[0]
-        print("MODEL-DRIFT: %d steps materialised variables the dependency table does not predict, e.g. %s %s" % (n_drift, gc.compact(by_tid[ex[0]]["hist"]), ex[1][:1]))
-    ctx.note("model_drift_steps", n_drift)
-    for t in traces[:2]:
-        ctx.sample({"history": gc.compact(t["hist"]), "sources": t["sources"], "events": [{k: e.get(k) for k in ("act", "h", "args", "res_ok", "obs", "bad")} for e in t["events"]]})
-
-
 def replay(path):
-    import json
-
-    from harness import gridmachine as M
-
-    data = json.load(open(path))
-    rc = 0
-    for case in data["cases"][:20]:
-        rp = case["replay"]
-        evs = M.replay(rp["history"], {int(k): v for k, v in rp["sources"].items()})
-        last = evs[-1]
-        print(gc.compact(rp["history"]), "->", {k: last.get(k) for k in ("res_ok", "raised", "fresh_raised", "obs", "bad", "tmpl", "earlier", "where")})
-        if not last.get("res_ok") or last.get("bad") or last.get("tmpl") or last.get("earlier") or last.get("raised") != last.get("fresh_raised"):
-            rc = 1
-    return rc
+    return gc.replay_file(path)
